@@ -230,6 +230,43 @@ func (c *caseRun) inject(f Fault) []int {
 	return vs
 }
 
+// quiesce waits (bounded) until the core's view of the case's tasks - task state / status in the
+// roster and role state / status in the tree - has not changed for 15 ms: the state updates of the
+// replies to a command run in goroutines of their own (go m.updateTaskState), after the request
+// has returned, and a late one would overwrite the ERROR of a fault injected meanwhile (a schedule
+// of its own, left to the model: the pending updates of [wrun] run in any order)
+func (c *caseRun) quiesce() {
+	snap := func() string {
+		var b strings.Builder
+		want := map[string]bool{}
+		for i := range c.in.Tasks {
+			want[pathFor(c.in)(c.name, i)] = true
+		}
+		ros := c.w.Sim.Taskman.VerifRoster()
+		sort.Slice(ros, func(a, b int) bool { return ros[a].RolePath < ros[b].RolePath })
+		for _, t := range ros {
+			if want[t.RolePath] {
+				fmt.Fprintf(&b, "%s=%s/%s;", t.RolePath, t.State, t.Status)
+			}
+		}
+		if c.env != nil {
+			fmt.Fprint(&b, c.env.RoleView())
+		}
+		return b.String()
+	}
+	last, since := snap(), time.Now()
+	end := time.Now().Add(500 * time.Millisecond)
+	for time.Now().Before(end) {
+		time.Sleep(3 * time.Millisecond)
+		cur := snap()
+		if cur != last {
+			last, since = cur, time.Now()
+		} else if time.Since(since) >= 15*time.Millisecond {
+			return
+		}
+	}
+}
+
 // settleFault waits (bounded) until the core has processed the fault: the victims' tasks are
 // ERROR / INACTIVE in the roster (internal error: a few milliseconds), plus the role updates
 func (c *caseRun) settleFault(f Fault, vs []int) {
@@ -338,6 +375,7 @@ func runCase(w *c0203.World, idx int, in Input) (obs []StepObs, wedged bool) {
 				return
 			}
 			fired = true
+			c.quiesce()
 			earlyVs = c.inject(f)
 			c.settleFault(f, earlyVs)
 		})
@@ -382,8 +420,9 @@ func runCase(w *c0203.World, idx int, in Input) (obs []StepObs, wedged bool) {
 			if r.Err != nil {
 				so.ErrText = r.Err.Error()
 			}
-			time.Sleep(12 * time.Millisecond) // the state updates of the replies
+			c.quiesce() // the state updates of the replies
 		case "fault":
+			c.quiesce()
 			vs := c.inject(*op.F)
 			so.Victims, so.IsFault = vs, true
 			c.settleFault(*op.F, vs)
@@ -397,6 +436,7 @@ func runCase(w *c0203.World, idx int, in Input) (obs []StepObs, wedged bool) {
 					return
 				}
 				injected = true
+				c.quiesce()
 				vs = c.inject(f)
 				c.settleFault(f, vs)
 			})
@@ -413,7 +453,7 @@ func runCase(w *c0203.World, idx int, in Input) (obs []StepObs, wedged bool) {
 			if injected {
 				c.waitAfterFault(c.anyCrit(vs) || f.Kind == "internal")
 			} else {
-				time.Sleep(12 * time.Millisecond)
+				c.quiesce()
 			}
 		}
 		c.observe(&so)
